@@ -78,6 +78,26 @@ func rootAlloc(v ssa.Value) *ssa.Alloc {
 	return nil
 }
 
+// freshLocalStore: the address lies in a slice made by this very function
+// (make([]T, n) filled by index): memory no caller can observe before the return.
+func freshLocalStore(addr ssa.Value, fn *ssa.Function) bool {
+	for i := 0; i < 10; i++ {
+		switch x := addr.(type) {
+		case *ssa.IndexAddr:
+			addr = x.X
+		case *ssa.FieldAddr:
+			addr = x.X
+		case *ssa.Slice:
+			addr = x.X
+		case *ssa.MakeSlice:
+			return x.Parent() == fn
+		default:
+			return false
+		}
+	}
+	return false
+}
+
 func (a *ordA) pure(fn *ssa.Function) bool {
 	if fn == nil {
 		return false
@@ -105,7 +125,9 @@ func (a *ordA) pure(fn *ssa.Function) bool {
 			switch x := in.(type) {
 			case *ssa.Store:
 				if al := rootAlloc(x.Addr); al == nil || al.Parent() != fn {
-					ok = false
+					if !freshLocalStore(x.Addr, fn) {
+						ok = false
+					}
 				}
 			case *ssa.MapUpdate:
 				if _, isLocal := a.c.resolve(x.Map).(*ssa.MakeMap); !isLocal {
